@@ -17,6 +17,7 @@ from ruamel.yaml import YAML
 from ruamel.yaml.error import YAMLError
 
 from openapi_python_client import utils
+from openapi_python_client import _verif_trace
 
 from .config import Config, MetaType
 from .parser import GeneratorData, import_string_from_class
@@ -111,14 +112,22 @@ class Project:
         print(f"Generating {self.project_dir}")
         try:
             self.project_dir.mkdir()
+            _verif_trace.emit("fs", op="mkdir")
         except FileExistsError:
             if not self.config.overwrite:
+                _verif_trace.emit("fs", op="exists_abort")
                 return [GeneratorError(detail="Directory already exists. Delete it or use the --overwrite option.")]
+            _verif_trace.emit("fs", op="exists_overwrite")
         self._create_package()
+        _verif_trace.emit("fs", op="package_done")
         self._build_metadata()
+        _verif_trace.emit("fs", op="metadata_done")
         self._build_models()
+        _verif_trace.emit("fs", op="models_done")
         self._build_api()
+        _verif_trace.emit("fs", op="api_done")
         self._run_post_hooks()
+        _verif_trace.emit("fs", op="hooks_done")
         return self._get_errors()
 
     def _run_post_hooks(self) -> None:
@@ -214,6 +223,7 @@ class Project:
         # Generate models
         models_dir = self.package_dir / "models"
         shutil.rmtree(models_dir, ignore_errors=True)
+        _verif_trace.emit("fs", op="rmtree_models")
         models_dir.mkdir()
         models_init = models_dir / "__init__.py"
         imports = []
@@ -256,10 +266,12 @@ class Project:
         errors_path = self.package_dir / "errors.py"
         errors_template = self.env.get_template("errors.py.jinja")
         errors_path.write_text(errors_template.render(), encoding=self.config.file_encoding)
+        _verif_trace.emit("fs", op="client_done")
 
         # Generate endpoints
         api_dir = self.package_dir / "api"
         shutil.rmtree(api_dir, ignore_errors=True)
+        _verif_trace.emit("fs", op="rmtree_api")
         api_dir.mkdir()
         api_init_path = api_dir / "__init__.py"
         api_init_template = self.env.get_template("api_init.py.jinja")
@@ -296,10 +308,14 @@ def _get_project_for_url_or_path(
 ) -> Union[Project, GeneratorError]:
     data_dict = _get_document(source=config.document_source, timeout=config.http_timeout)
     if isinstance(data_dict, GeneratorError):
+        _verif_trace.emit("fs", op="rejected_load")
         return data_dict
+    _verif_trace.emit("fs", op="loaded")
     openapi = GeneratorData.from_dict(data_dict, config=config)
     if isinstance(openapi, GeneratorError):
+        _verif_trace.emit("fs", op="rejected_validate")
         return openapi
+    _verif_trace.emit("fs", op="validated")
     return Project(
         openapi=openapi,
         custom_template_path=custom_template_path,
